@@ -22,6 +22,26 @@ func C06(p *ir.Program, r *report.R) {
 	// the signature pre-check trusts the mempool cache only for transactions that passed their basic check
 	c05Cache(c)
 	journalDirtyCounts(c)
+	// a confidential transaction of a NON-native token pays its fee from the signer's account (only for the
+	// native coin is the fee inside the commitment equation): GenerateTransaction decides on IsLKC(token), and
+	// on the not-LKC side the signer becomes the refund address on every path - buyGas reads an empty refund
+	// address as "fee already paid in the hidden pool"
+	{
+		gt := p.Func("app", "GenerateTransaction")
+		nL := 0
+		ir.Instrs(gt, func(in ssa.Instruction) {
+			ifi, ok := in.(*ssa.If)
+			if !ok || !strings.HasPrefix(ir.Render(ifi.Cond), "common.IsLKC(types.UTXOTransaction.TokenAddress(") {
+				return
+			}
+			nL++
+			notLKC := ifi.Block().Succs[1]
+			isSet := ir.CallMatcher("types.UTXOTransaction.From")
+			found, _, tr := ir.FindPath(ir.PathQuery{From: ir.Point{B: notLKC, I: -1}, Target: ir.IsReturn, Avoid: isSet})
+			r.Check("K2", "app.GenerateTransaction/utxo/token-fee-payer-set", p.InstrPos(in), !found, fmt.Sprintf("for a non-native token every path recovers the signer (from = tx.From(), which becomes RefundAddr); path without it: %v", tr))
+		})
+		r.Check("K2", "app.GenerateTransaction/utxo/token-fee-payer/decision", p.Pos(gt.Pos()), nL >= 1, fmt.Sprintf("%d decision(s) on IsLKC(token) in GenerateTransaction", nL))
+	}
 	// at most ONE account input: checkCommitEqual adds up the commitments of all account inputs, but the
 	// executor debits a single one; an iteration of the input loop that accepts an account input is the
 	// first to do so (the kind bit not yet set / the counter still zero)
